@@ -3,7 +3,7 @@
 * every simulated thread is a real daemon thread gated by a semaphore (baton passing);
 * blocking primitives are stubs with the stdlib's semantics written against the
   scheduler: queue.Queue, Future.result/exception, ThreadPoolExecutor.submit,
-  threading.Thread.start/join, time.sleep/time/monotonic.  They are installed on the
+  threading.Thread.start/join, threading.Semaphore.acquire, time.sleep/time/monotonic.  They are installed on the
   stdlib objects and fall back to the real implementation when the caller is not a
   simulated thread, so a refactor of the code under test stays inside the simulation;
 * line-level pre-emption: sys.settrace in simulated threads, active only in frames of
@@ -27,6 +27,12 @@ class SimKilled(BaseException):
     pass
 
 
+class _Gate(threading.Semaphore):
+    """The scheduler's own baton semaphores: bound to the real acquire whatever is installed on Semaphore later."""
+    acquire = threading.Semaphore.acquire
+    __enter__ = acquire
+
+
 _tls = threading.local()
 ACTIVE = None   # the scheduler of the run in progress (one per process at a time)
 
@@ -42,7 +48,7 @@ class SThread:
         self.sched = sched
         self.fn = fn
         self.name = name
-        self.gate = threading.Semaphore(0)
+        self.gate = _Gate(0)
         self.state = "ready"      # ready | blocked | done
         self.pred = None
         self.deadline = None
@@ -79,7 +85,7 @@ class Sched:
         self.ctx = ctx
         self.now = 0.0
         self.threads = []
-        self.main_gate = threading.Semaphore(0)
+        self.main_gate = _Gate(0)
         self.killing = False
         self.trace_files = tuple(trace_files)
         self.pre_num, self.pre_den = preempt
@@ -90,6 +96,9 @@ class Sched:
         self.last = None
         self.nspawn = 0
         self.pool_delay = 0.0
+        self.pool_busy = {}      # id(executor) -> work items being executed by a worker
+        self.pool_queue = {}     # id(executor) -> tickets of the items not yet picked up, in submission order
+        self.pool_capacity = True
 
     # -- thread management -----------------------------------------------------------------
     def spawn(self, fn, name=None):
@@ -325,28 +334,57 @@ def _ex_submit(self, fn, /, *args, **kwargs):
     s.ctx.notes["submits"] = s.ctx.notes.get("submits", 0) + 1
 
     delay = s.pool_delay
+    key = id(self)
+    cap = getattr(self, "_max_workers", None) if s.pool_capacity else None
+    ticket = s.ctx.notes["submits"]
+    waiting = s.pool_queue.setdefault(key, [])
+    busy = s.pool_busy
+    busy.setdefault(key, 0)
+    waiting.append(ticket)
 
     def work():
         # a saturated pool: the work item waits in the pool's queue before a worker picks it up
         if delay:
             s.ctx.fault("pool_saturated")
             s.sleep(delay)
+        # the pool has max_workers workers and a FIFO queue: an item beyond that waits until a worker is free
+        if cap:
+            if busy[key] >= cap:
+                s.ctx.fault("pool_at_capacity_item_queued")
+            s.block_until(lambda: busy[key] < cap and waiting[0] == ticket, None, "pool.queue")
+        waiting.remove(ticket)
         if not f.set_running_or_notify_cancel():
             s.ctx.probe("pool_item_cancelled_before_start")
             return
+        busy[key] += 1
         try:
             r = fn(*args, **kwargs)
         except SimKilled:
             raise
         except BaseException as e:  # noqa
+            busy[key] -= 1
             f.set_exception(e)
         else:
+            busy[key] -= 1
             f.set_result(r)
 
     th = s.spawn(work, "pool%d" % s.ctx.notes["submits"])
     f._sim_thread = th
     s.maybe_preempt("submit")
     return f
+
+
+def _sem_acquire(self, blocking=True, timeout=None):
+    s = _sim()
+    if s is None:
+        return _real["sem_acquire"](self, blocking, timeout)
+    if not blocking and timeout is not None:
+        raise ValueError("can't specify timeout for non-blocking acquire")
+    s.maybe_preempt("Semaphore.acquire")
+    if not s.block_until(lambda: self._value > 0, timeout if blocking else 0, "Semaphore.acquire"):
+        return False
+    self._value -= 1
+    return True
 
 
 def _t_start(self):
@@ -397,6 +435,7 @@ def install():
     Q = _queue.Queue
     _real.update(put=Q.put, get=Q.get, qsize=Q.qsize, empty=Q.empty, full=Q.full, qjoin=Q.join, task_done=Q.task_done,
                  result=cf.Future.result, exception=cf.Future.exception, submit=cft.ThreadPoolExecutor.submit,
+                 sem_acquire=threading.Semaphore.acquire,
                  tstart=threading.Thread.start, tjoin=threading.Thread.join, tis_alive=threading.Thread.is_alive,
                  sleep=_timemod.sleep, time=_timemod.time, monotonic=_timemod.monotonic)
     Q.put, Q.get, Q.qsize, Q.empty, Q.full, Q.join, Q.task_done = _q_put, _q_get, _q_qsize, _q_empty, _q_full, _q_join, _q_task_done
@@ -405,6 +444,8 @@ def install():
     cf.Future.result = _f_result
     cf.Future.exception = _f_exception
     cft.ThreadPoolExecutor.submit = _ex_submit
+    threading.Semaphore.acquire = _sem_acquire
+    threading.Semaphore.__enter__ = _sem_acquire
     threading.Thread.start = _t_start
     threading.Thread.join = _t_join
     threading.Thread.is_alive = _t_is_alive
